@@ -310,3 +310,4 @@ def run(chk):
     from contracts import C08
     chk.under_contract(C08.CL + ":_lie_expansion", C08.CL + ":_lie_transform", C08.CL + ":_apply_coord_transform")
     C08._whole(chk, 4, partial_only=True)
+    C08._pipeline_wiring(chk)
